@@ -417,7 +417,10 @@ octosql "SELECT * FROM plugins.plugins"`,
 				output == "live_table",
 			)
 		case "csv", "json":
-			if len(orderByExpressions) > 0 || (limitExpression != nil && !physicalPlan.Schema.NoRetractions) {
+			// CSV and JSON have no notation for a retraction, so a plan that can retract (an outer join retracts
+			// its NULL-padded rows, a GROUP BY with an early trigger retracts intermediate results) is consolidated
+			// before it is printed; otherwise retractions would be printed as if they were rows.
+			if len(orderByExpressions) > 0 || !physicalPlan.Schema.NoRetractions {
 				executionPlan = nodes.NewOrderSensitiveTransform(executionPlan, orderByExpressions, logical.DirectionsToMultipliers(outputOptions.OrderByDirections), limitExpression, physicalPlan.Schema.NoRetractions)
 			} else if limitExpression != nil {
 				executionPlan = nodes.NewLimit(executionPlan, *limitExpression)
